@@ -540,6 +540,8 @@ def run(sc, cap=None, monitor_only=False):
         outcome = start_with_cap(sim, mon, cap if cap is not None else sc.get('cap') or serial_bound(sc))
         res = Result(mon.tags, mon, sim, snaps)
         res.outcome = outcome
+        if outcome == 'cap':
+            partial_event_oracles(sim, mon)
         if outcome != 'finished':
             return res
         sim.monitor.collate_events()
@@ -549,6 +551,28 @@ def run(sc, cap=None, monitor_only=False):
         return res
     finally:
         CUR = None
+
+
+def partial_event_oracles(sim, mon):
+    """C13 on a run that hit the step cap: what has been logged must still be right - in particular an observation
+    whose 'started' is logged must have its 'finished' logged exactly one duration later once that time has passed"""
+    try:
+        sim.monitor.collate_events()
+        ev = sim.monitor.events.rows
+    except Exception:
+        return
+    now = sim.env.now
+    for o in sim.instrument.observations:
+        mine = [(e['actor'], e['resource'], e['event'], e['time']) for e in ev if e['observation'] == o.name]
+        st = [m[3] for m in mine if m[:3] == ('instrument', 'telescope', 'started')]
+        fi = [m[3] for m in mine if m[:3] == ('instrument', 'telescope', 'finished')]
+        if len(st) > 1:
+            mon.tag('C13/instrument-telescope-started-logged-2-times')
+        if len(st) == 1 and now > st[0] + o.duration + 1:
+            if not fi:
+                mon.tag('C13/finished-not-logged-one-duration-after-started')
+            elif fi[0] - st[0] != o.duration:
+                mon.tag('C13/finished-not-duration-after-started')
 
 
 def final_oracles(sc, res):
@@ -642,6 +666,26 @@ def final_oracles(sc, res):
                 mon.tag('C08/ingest-not-held-for-observation-duration')
         if o.ast is not None and o.ast < o.est:
             mon.tag('C08/started-before-planned-start')
+    # ---- C02: end state
+    if len(r['available']) != len(cl.machines) or r['ingest'] or r['occupied']:
+        mon.tag('C02/machines-not-all-available-at-end')
+    if r['idle'] or cl.num_provisioned_obs != 0:
+        mon.tag('C02/reservation-outstanding-at-end')
+    # ---- C08: every observation goes WAITING -> RUNNING -> FINISHED once; on time when the system is completely idle
+    order = {'WAITING': 0, 'RUNNING': 1, 'FINISHED': 2}
+    for k, o in enumerate(tel.observations):
+        seq = [order[sn['statuses'][k]] for sn in snaps]
+        if any(b < a for a, b in zip(seq, seq[1:])):
+            mon.tag('C08/observation-status-went-backwards')
+        if o.ast is not None and o.est == int(o.est) and 0 <= int(o.est) < len(snaps):
+            sn = snaps[int(o.est)]
+            idle_then = (sn['available_resources'] == len(cl.machines) and sn['ingest_resources'] == 0 and sn['running_tasks'] == 0
+                         and sn['hot_buffer'] == hot.total_capacity and sn['cold_buffer'] == cold.total_capacity
+                         and sn['scheduler_observation_queue'] == 0 and sn['provisioned_observations'] == 0
+                         and all(x != 'RUNNING' for x in sn['statuses']))
+            first_due = all(not (o2 is not o and o2.est <= o.est and sn['statuses'][j] == 'WAITING') or j > k for j, o2 in enumerate(tel.observations))
+            if idle_then and first_due and o.ast != o.est:
+                mon.tag('C08/idle-system-did-not-start-due-observation-on-time')
     # ---- C12 table vs probe
     if len(df.rows) != len(snaps):
         mon.tag('C12/row-count-differs-from-timesteps')
